@@ -153,6 +153,23 @@ fn run_shape(shape: &Shape, tuples: &[Vec<usize>]) -> Vec<Res> {
             DumpResult::Panic(p) => out.push(Res { case, errors: vec![], status: 2, detail: p, outcome: 2 }),
         }
     }
+    // the same target again with the writer forced onto its fallback read strategies
+    for strat in [1u8, 2] {
+        for t in [vec![0usize; 7], vec![1, 1, 1, 1, 2, 1, 1]] {
+            if strat == 2 && shape.n > 8 {
+                continue; // word-by-word reads of dozens of stacks: kept for the small shapes
+            }
+            let o = opts_for(&t, &b, &env);
+            b.p.quiesce();
+            let res = crate::envrun::env_dump(&b.p, &crate::envrun::EnvSpec { opts: o, plan: crate::envrun::strategy_plan(strat), ..Default::default() }, std::collections::HashMap::new(), None);
+            let case = json!({"shape": shape.to_json(), "options": t, "strategy": strat});
+            match res.result {
+                DumpResult::Ok(bytes) => out.push(Res { case, errors: judge(&bytes), status: 0, detail: String::new(), outcome: 100 + strat as u64 }),
+                DumpResult::Err(e) => out.push(Res { case, errors: vec![], status: 1, detail: e, outcome: 1 }),
+                DumpResult::Panic(p) => out.push(Res { case, errors: vec![], status: 2, detail: p, outcome: 2 }),
+            }
+        }
+    }
     out
 }
 
